@@ -25,5 +25,5 @@ def run(tier: str) -> Check:
         "the obligations are necessary conditions; sufficiency for agreement with pest on every grammar is not claimed",
         "termination is not decided",
     ]
-    fill(check, tier, floors={"operator_classes": 25, "parse_paths": 150, "rule_paths": 200})
+    fill(check, tier, floors={"operator_classes": 25, "parse_paths": 120, "rule_paths": 200})
     return check
